@@ -1,6 +1,7 @@
 import FmpRpc.Model.Text
 import FmpRpc.Model.Monitors
 import Driver.Sat
+import FmpRpc.Model.ConnMon
 /-
   Oracle: runs the model's executable definitions on the operations the Go
   harness ran on the implementation, one line in, one line out.
@@ -74,6 +75,9 @@ def handle (line : String) : String :=
   | "uri" :: rest => Sat.uri rest
   | "tags" :: rest => Sat.tags rest
   | "timer" :: rest => Sat.timer rest
+  | "cmon" :: _ =>
+    let v := CM.all (CM.parseHist ((line.drop 5).toString))
+    if v.isEmpty then "ok" else "viol " ++ " ".intercalate v
   | "mon" :: max :: _ =>
     match max.toNat? with
     | some max =>
